@@ -108,6 +108,12 @@ Fixpoint replace_by_id (i : val) (new : doc) (coll : list doc) : list doc :=
                             'ed_cur := ed_cur st; ed_doc := ed_doc st; ed_new_doc := ed_new_doc st; '
                             'ed_storage := ed_storage st; ed_msg := ed_msg st |})))'),
                 'failed_policies.append(doc)': ('set', [('failed_policies', '({failed_policies} ++ [{doc}])')]),
+                # the arguments of a logging call are evaluated like any others: doc['uid'] raises KeyError on a document
+                # without a uid (inside the try: such a document is reported as failed)
+                "log.info('Trying to migrate Policy with UID: %s', doc['uid'])":
+                    ('raw', '(xbind (xlift st (dget k_uid {doc})) (fun _ => XOk (Normal st)))'),
+                "log.info('Policy with UID: %s was migrated', doc['uid'])":
+                    ('raw', '(xbind (xlift st (dget k_uid {doc})) (fun _ => XOk (Normal st)))'),
                 # building the text of the final error message
                 "msg = '\\n'.join(['Migration was unable to convert some Policies, but they were left in the database as-is. ' "
                 "+ 'They might be not automatically convertible, custom ones, malformed JSON docs.', "
